@@ -1083,3 +1083,4 @@ UNITS += [("C12.cvode_update_reactants.accepted_state_translated_equilibrated_an
 UNITS = [(uid, fast_twin(f)) for uid, f in UNITS]
 from props.c12_ext3 import UNITS as _U3; UNITS = UNITS + _U3
 from props.c12_ext4 import UNITS as _U4; UNITS = UNITS + _U4
+from props.c12_ext5 import UNITS as _U5; UNITS = UNITS + _U5
